@@ -180,6 +180,16 @@ def run(ctx):
         if v[0] == "b":
             cases.append({"src": "set f to transform if not %s then return 'T' end return 'F' end\nreplace all 'a' with f" % lit(v), "texts": ["a"]})
             meta.append(("val", "not " + lit(v), b"F" if v[1] else b"T"))
+    # head / tail split off the first BYTE, also when the string starts with a character of several bytes (written raw in the source, or read from the text)
+    for u8 in ["é".encode(), "éa".encode(), "aé".encode(), "€x".encode(), "😀".encode(), "ñandú".encode()]:
+        raw = u8.decode("latin-1")
+        for uop, want in (("head", u8[:1]), ("tail", u8[1:])):
+            cases.append({"src": "set f to transform return %s '%s' end\nreplace all 'a' with f" % (uop, raw), "texts": ["a"]})
+            meta.append(("val", "%s of the literal %r" % (uop, u8), want))
+            cases.append({"src": "set f to transform return %s match end\nreplace all at least 1 any with f" % uop, "texts": [raw]})
+            meta.append(("val", "%s match on %r" % (uop, u8), want))
+        cases.append({"src": "set f to transform set n to 0 set t to match loop if t == '' then break end set t to tail t set n to n + 1 end return n end\nreplace all at least 1 any with f", "texts": [raw]})
+        meta.append(("val", "byte count by repeated tail on %r" % u8, str(len(u8)).encode()))
     # coercion of the match text (run-time strings): match is the text
     for t in ["7", "-3", "+4", "x", "07", "", "9223372036854775808", "12"]:
         if t == "":
